@@ -1871,7 +1871,7 @@ def deps(e, acc):
 
 
 def translate(repo, FILES=FILES, DEPS=(), imports=("OZ.Model.RustSem",), reads=None, structs=None, tymaps=None,
-              store=None, impl_types=None, stubs=None):
+              store=None, impl_types=None, stubs=None, rename_types=None):
     """DEPS: files translated elsewhere whose signatures are needed (parsed, not emitted);
     reads: {namespace: {getter name: Rust type}} — the side-effect-free state getters (`Self::name(e)`)
     that become fields of the record `<namespace>.Reads` passed to every function of that namespace"""
@@ -2045,6 +2045,9 @@ def translate(repo, FILES=FILES, DEPS=(), imports=("OZ.Model.RustSem",), reads=N
             decls.append(f"inductive {en} where\n" + "\n".join(f"  | {v_}" for v_ in vs) + "\n  deriving DecidableEq, Repr\n")
     if decls:
         text = text.replace("open OZ.Rs\n", "open OZ.Rs\n\n" + "\n".join(decls), 1)
+    # declared type names that would clash with those of another generated file: qualified afterwards
+    for old, new in (rename_types or {}).items():
+        text = re.sub(r"(?<![\w.])" + re.escape(old) + r"\b", new, text)
     return text + "\n"
 
 
@@ -2323,7 +2326,8 @@ def main():
     try:
         if "--timelock-st" in sys.argv:
             txt = translate(repo, FILES_TL, reads=READS_TL, structs=STRUCTS_TL, store=STORE_TL,
-                            tymaps={"packages/governance/src/timelock/storage.rs": {"BytesN<32>": "Bytes32"}})
+                            tymaps={"packages/governance/src/timelock/storage.rs": {"BytesN<32>": "Bytes32"}},
+                            rename_types={"OperationState": "TimelockSt.OperationState", "Operation": "TimelockSt.Operation"})
         elif "--dist" in sys.argv:
             txt = translate(repo, FILES_DIST, DEPS=FILES_MERKLE, imports=("OZ.Gen.Merkle",), reads=READS_DIST, store=STORE_DIST,
                             tymaps=TYMAPS_DIST, impl_types={"Verifier": "Merkle", "MerkleDistributor": "Distributor"}, stubs=STUBS_DIST)
